@@ -113,6 +113,8 @@ def st_case(draw):
     fam = draw(st.sampled_from(["Z2x2", "Cubic1"]))
     spec = dict(draw(zp.st_z2x2() if fam == "Z2x2" else zp.st_cubic1(delta_range=(0.05, 0.9))))
     spec["units"] = 1.0
+    if draw(st.sampled_from([False, False, False, True])):
+        spec["Tn_int"] = True   # an integer nucleation temperature, as a user would type it (Tn=100)
     mode = draw(st.sampled_from(["direct", "direct", "manager"]))
     case = {"spec": spec, "mode": mode, "temps": draw(st_temps()),
             "cont": [_r(draw(st.floats(2.0, 9.0)), 3) for _ in range(4)]}
@@ -269,7 +271,7 @@ def build(case, v):
         dT = V.derivativeSettings.temperatureVariationScale * case["tol"] ** 0.25
         return th, cf, V, case["tol"], dT, Tn, err
     V, model, cf = zp.configured_potential(spec)
-    th = WallGo.Thermodynamics(V, float(Tn), WallGo.Fields(cf.phase("low", Tn)), WallGo.Fields(cf.phase("high", Tn)))
+    th = WallGo.Thermodynamics(V, (int(Tn) if spec.get("Tn_int") else float(Tn)), WallGo.Fields(cf.phase("low", Tn)), WallGo.Fields(cf.phase("high", Tn)))
     th.freeEnergyHigh.disableAdaptiveInterpolation()
     th.freeEnergyLow.disableAdaptiveInterpolation()
     try:
